@@ -38,3 +38,19 @@ Example C06_nonvacuous :
   check_network_cert 2 1 [[1];[-1]] tri []%list [0;1]%nat [2]%nat = false /\
   check_network_cert 2 1 [[1];[-1]] tri [1%nat] [0;1]%nat [2]%nat = true.
 Proof. repeat split; vm_compute; reflexivity. Qed.
+
+(* ---------- network matrices are totally unimodular (NetworkTU.v, MathComp: incidence matrices are TU, the telescoping
+   identity D_T M = D_C from the certificate, and Sylvester's determinant identity for  [B | B M] TU, det B = +-1 => M TU) ---------- *)
+From Cmr Require NetworkTU TuNetModel TuNetProofs TuModel.
+Theorem C06_network_certificate_implies_TU : forall m n M G rv forest coforest,
+  check_network_cert m n M G rv forest coforest = true -> tu_bf m n M = true.
+Proof. exact NetworkTU.network_cert_tu_bf. Qed.
+Print Assumptions C06_network_certificate_implies_TU.
+
+Theorem C06_tu_verdict_on_certified_network_matrices : forall rec cfg m n M rc v sub G f c r rest,
+  TuNetModel.tu_net_input rec = Some ((cfg, (m, n, M), rc, v, sub, WGraph G f c r), rest) ->
+  check_network_cert m n M G r f c = true ->
+  TuNetModel.judge_tu_net rec = 0 ->
+  rc = 0 /\ tu_bf m n M = true /\ (v = 2 -> TuModel.cfg_stopflags cfg = true) /\ (v <> 2 -> v = 1 /\ sub = None).
+Proof. exact TuNetProofs.judge_tu_net_sound. Qed.
+Print Assumptions C06_tu_verdict_on_certified_network_matrices.
